@@ -1,10 +1,15 @@
 package config
 
 import (
+	"fmt"
 	"go.minekube.com/gate/pkg/edition/java/proto/util"
 	"go.minekube.com/gate/pkg/gate/proto"
 	"io"
 )
+
+// maxTagsPreAlloc bounds how many map entries are pre-allocated for a count
+// that was read from the wire and is not yet backed by actual data.
+const maxTagsPreAlloc = 1024
 
 type TagsUpdate struct {
 	Tags map[string]map[string][]int
@@ -18,7 +23,12 @@ func (p *TagsUpdate) Decode(c *proto.PacketContext, rd io.Reader) (err error) {
 		return err
 	}
 
-	p.Tags = make(map[string]map[string][]int, size)
+	if size < 0 {
+		return fmt.Errorf("got a negative-length tag registry map (%d)", size)
+	}
+	// size and innerSize come from the wire: cap the pre-allocation, the maps grow as
+	// entries are actually read.
+	p.Tags = make(map[string]map[string][]int, min(size, maxTagsPreAlloc))
 	for i := 0; i < size; i++ {
 		key, err := util.ReadString(rd)
 		if err != nil {
@@ -30,7 +40,10 @@ func (p *TagsUpdate) Decode(c *proto.PacketContext, rd io.Reader) (err error) {
 			return err
 		}
 
-		innerMap := make(map[string][]int, innerSize)
+		if innerSize < 0 {
+			return fmt.Errorf("got a negative-length tag map (%d)", innerSize)
+		}
+		innerMap := make(map[string][]int, min(innerSize, maxTagsPreAlloc))
 		for j := 0; j < innerSize; j++ {
 			innerKey, err := util.ReadString(rd)
 			if err != nil {
